@@ -11,16 +11,20 @@ prop("C08",
                 "requested range is the real one: fact_walk_configured (both clamps, ascending sort, delegation to "
                 "walkIPRanges regenerated from walkConfiguredIPRanges), walkConfigured_mem, "
                 "walkConfigured_eq_filter_enumerate (exactly the requested configured addresses, ascending, whatever the "
-                "pool order), walk_unsorted_unclipped_counter. IPAM level; the "
+                "pool order), walk_unsorted_unclipped_counter. Bind level (plugin model M4): bind_reports_request_order "
+                "(after every history, a Bind answering ok for a pod requesting k range lists writes exactly k entries, the "
+                "i-th inside the i-th list, whatever subset was pre-owned) + fact_bind_reply_order restate "
+                "Galaxy.Plugin.bind_reports_request_order_after_history. The "
                 "binding-annotation clause is model M4's.",
      level_note="Full on the model. The c08 harness injects a fault at every call index (creates and rollback deletes) and checks "
                 "both clauses on the real code.",
      technique="Lean 4 theorems over an executable model + regenerated structural facts (factgen ipam) + differential "
                "correspondence; monitor = the C08 statement evaluated on the real AllocateInSubnetsAndIPRange outputs with a "
                "failing create at every index, partially pre-owned ranges and undelivered admin reservations",
-     factgen=["ipam"],
-     drivers=["ipam"],
-     trusted=["tools/factgen/cmd/ipam: syntactic extraction of the rollback loop shape",
+     factgen=["ipam", "plugin"],
+     drivers=["ipam", "plugin"],
+     trusted=["tools/factgen/cmd/plugin + harness/plugin (RunBindRanges: real Filter/Bind on fake clientsets, see C04)",
+              "tools/factgen/cmd/ipam: syntactic extraction of the rollback loop shape",
               "harness/ipam: client-go fake CRD clientset as API server, decorator for faults"],
      assumptions=["requested range lists pairwise disjoint (the TODO in the code documents the overlapping case as unsupported)",
                   "configurations passed fipCheck; pools pairwise disjoint as address sets (DisjointConf in walkConfigured_eq_filter_enumerate)"],
